@@ -37,8 +37,8 @@ ASSUMPTIONS = [
     'comments added by resolveImports (/* START @import ... */) are ignored',
 ]
 MIN_EVENTS = {
-    'quick': {'oracle.enumerate': 5000, 'oracle.replace': 3500, 'oracle.flatten': 4000, 'urls.compared': 18000, 'edges.expanded': 5000, 'edges.kept': 800, 'oracle.combine': 100},
-    'thorough': {'oracle.enumerate': 120000, 'oracle.replace': 90000, 'oracle.flatten': 100000, 'urls.compared': 450000, 'edges.expanded': 120000, 'edges.kept': 20000, 'oracle.combine': 2400},
+    'quick': {'oracle.enumerate': 5000, 'oracle.replace': 3500, 'oracle.flatten': 4000, 'oracle.flatten-input': 4000, 'urls.compared': 18000, 'edges.expanded': 5000, 'edges.kept': 800, 'oracle.combine': 100},
+    'thorough': {'oracle.enumerate': 120000, 'oracle.replace': 90000, 'oracle.flatten': 100000, 'oracle.flatten-input': 100000, 'urls.compared': 450000, 'edges.expanded': 120000, 'edges.kept': 20000, 'oracle.combine': 2400},
 }
 
 TOP = 'http://h/d0/d1/top.css'
@@ -345,6 +345,22 @@ def read_result(c, sheet, base):
     return entries, kept
 
 
+def input_state(sheet):
+    """what a caller can read off the sheet it handed to resolveImports: the texts of the sheet and of every sheet it imports, and
+    whether its rules still name it as their sheet"""
+    texts, links = [], []
+
+    def rec(sh):
+        texts.append(sh.cssText.decode('utf-8', 'replace'))
+        for r in sh.cssRules:
+            links.append(r.parentStyleSheet is sh)
+            if type(r).__name__ == 'CSSImportRule' and r.styleSheet is not None:
+                rec(r.styleSheet)
+
+    rec(sheet)
+    return {'texts': texts, 'links': links}
+
+
 def part_b(ctx, c, rng, i, depth=None):
     tree = Tree(rng, depth or rng.choice([1, 2, 2, 3, 4]))
     case = {'kind': 'tree', 'files': {u: tree.text(u) for u in tree.files}, 'missing': sorted(tree.missing)}
@@ -363,8 +379,26 @@ def run_tree(ctx, c, tree, case, feats):
     core.canonical_state(c, raising=False)
     try:
         sheet = c.CSSParser(fetcher=fetcher).parseString(tree.text(TOP), href=TOP)
+        before = input_state(sheet)
         result = c.resolveImports(sheet)
         entries, kept = read_result(c, result, TOP)
+        # ---- the sheet that was handed in (and the sheets it imports) are input, not material: they read as before, and flattening
+        # the same sheet once more gives the same result
+        ctx.count('oracle.flatten-input')
+        after = input_state(sheet)
+        cf = set()
+        if after['texts'] != before['texts']:
+            cf.add('input.urls-rewritten' if len(after['texts']) == len(before['texts']) else 'input.sheets-changed')
+        if after['links'] != before['links']:
+            cf.add('input.rules-reparented')
+        if not cf:
+            n_log = len(log)
+            again = read_result(c, c.resolveImports(sheet), TOP)
+            del log[n_log:]
+            if again != (entries, kept):
+                cf.add('repeat.other-result')
+        if cf:
+            ctx.violation('flatten.input-consumed', case, {'changed': sorted(cf), 'texts_before': before['texts'][:3], 'texts_after': after['texts'][:3], 'links_after': after['links'][:12]}, features=sorted(cf))
     except Exception as e:
         ctx.violation('flatten.exception', case, {'tb': core.short_tb(e)}, site=core.raise_site(e), features=feats)
         return
